@@ -135,6 +135,8 @@ def handle (op : String) (args : List String) : Option String :=
       | ["invalid"] => some (PluginBehaviour.answer false)
       | ["send", k] => do pure (PluginBehaviour.sendErr (← decNat k))
       | _ => none
+    -- with chunkSize = 0 the Go loop never advances (C05_chunkSize_pos no longer checks either)
+    if chunkSize == 0 then return "twin: chunkSize = 0, the send loop does not terminate"
     let (res, got) := validate chunkSize (List.replicate len (0 : UInt8)) b
     let r := match res with | .ok => "ok" | .invalid => "invalid" | .err => "err"
     pure (joinToks (r :: got.map fun c => toString c.length))
